@@ -33,9 +33,19 @@ def check(ctx):
     ctx.rule('C06.N', 'queue mutexes are not nested; no user code or slot destruction under them')
     ctx.rule('C06.O', 'per-thread order: enqueue at end, take at begin, put-back at begin; slots handed back FULL, recycled EMPTY')
     from .c05 import run_slot_rules
+    ctx.rule('C06.M', 'stored payloads are not moved from before they are consumed')
+    from ..moves import MoveAnalysis
     for tu in ctx.tus:
         info = TUInfo(tu)
         run_slot_rules(ctx, 'C06.O', 'C06.O', tu, only_kinds=('O-', 'P-into', 'P-swap'))
+        ma = MoveAnalysis(tu)
+        for f in tu.fns:
+            if queue_of(f) and f.outermost().name in ('processIf', 'processUntil', 'process', 'processOne', 'peekEvent', 'doInvokeFuncWithQueuedEvent',
+                                                       'doInvokeFuncWithQueuedEventHelper', 'doDispatchQueuedEvent', 'doProcessIf', 'doDispatchItem', 'doDispatchQueuedItem'):
+                vs, pairs = ma.violations(f)
+                names = sorted({v['site']['name'] + ' ' + v['kind'] for v in vs})
+                ctx.ob('C06.M', f, 'a queued event\'s stored arguments are read, never moved from, until the event is consumed', not vs,
+                       detail='\n'.join(v['msg'] for v in vs[:3]), key_detail='move ' + ','.join(names))
         for q in QUEUES:
             check_queue(ctx, tu, info, q)
         check_slots(ctx, tu)
@@ -44,6 +54,7 @@ def check(ctx):
     ctx.require_min('C06.X', 4)
     ctx.require_min('C06.N', 10)
     ctx.require_min('C06.O', 8)
+    ctx.require_min('C06.M', 5)
 
 
 def held_mutex_names(si, pos, may=False):
